@@ -440,11 +440,14 @@ func (db *SpecDB) LoadSpecFile(path, pkg string, assumed bool) error {
 			default:
 				return fail(fmt.Errorf("bad loop clause %q", k2))
 			}
-		case "callsite":
+		case "callsite", "onstore":
 			if cur == nil {
 				return fail(fmt.Errorf("callsite outside func"))
 			}
 			pat, tail := splitWord(rest)
+			if kw == "onstore" {
+				pat = "store:" + pat // assignment to the field of that name
+			}
 			curCS = &CallsiteSpec{Pattern: pat}
 			for _, w := range strings.Fields(tail) {
 				if strings.HasPrefix(w, "//") {
